@@ -3,14 +3,18 @@ package main
 
 import (
 	"bytes"
+	"errors"
 	"fmt"
-	simplefixgo "github.com/b2broker/simplefix-go"
-	"github.com/b2broker/simplefix-go/session"
 	"strconv"
 	"strings"
 	"sync"
+	"sync/atomic"
 	"time"
 
+	simplefixgo "github.com/b2broker/simplefix-go"
+	"github.com/b2broker/simplefix-go/fix"
+	"github.com/b2broker/simplefix-go/session"
+	"github.com/b2broker/simplefix-go/storages/memory"
 	fixgen "github.com/b2broker/simplefix-go/tests/fix44"
 
 	"verifharness/fixref"
@@ -49,6 +53,11 @@ func run(c *vk.Ctx, can *rig.Canary, sc scen, idx int) {
 			b, _ := m.ToBytes()
 			return !bytes.Contains(b, []byte("262=refuse-me"))
 		})
+	}
+	var flaky *flakyCounter
+	if sc.pattern == "counter-store-fault-on-one-send" {
+		flaky = &flakyCounter{Storage: memory.NewStorage()}
+		cfg.Counter, cfg.Messages = flaky, flaky
 	}
 	var obsIDs [2]int64
 	switch sc.pattern {
@@ -184,6 +193,42 @@ func run(c *vk.Ctx, can *rig.Canary, sc scen, idx int) {
 		for time.Now().Before(end) {
 			sendAt(N - 150*time.Millisecond)
 		}
+	case "send-inside-last-polling-step":
+		// The timer polls every N/10, counted from the moment it was (re)started: at logon and after every Heartbeat
+		// it fired. A first send a little less than 5 steps after that moment puts the next deadline a little less
+		// than a whole step after a poll; the second send, one step minus 40 ms before that deadline, then falls
+		// between the last poll and the deadline. The Heartbeat is due N after the SECOND send.
+		step := N / 10
+		for time.Now().Before(end) {
+			t0 := lastOut()
+			if d := time.Until(t0.Add(5*step - 20*time.Millisecond)); d > 0 {
+				time.Sleep(d)
+			}
+			if !lastOut().Equal(t0) {
+				continue
+			}
+			_ = l.S.Send(fixgen.CreateMarketDataRequestReject("c08-a"))
+			c.Count("app_sends", 1)
+			for w := 0; w < 100 && !lastOut().After(t0); w++ {
+				time.Sleep(2 * time.Millisecond)
+			}
+			sendAt(N - step + 40*time.Millisecond)
+			time.Sleep(N + step)
+		}
+	case "counter-store-fault-on-one-send":
+		// the application's counter store fails once to hand out the next number: that send returns an error and
+		// transmits nothing; the store works again at once, the session stays logged on — and goes on emitting Heartbeats
+		time.Sleep(N * 3 / 10)
+		atomic.StoreInt32(&flaky.armed, 1)
+		if err := l.S.Send(fixgen.CreateMarketDataRequestReject("c08-fault")); err == nil {
+			c.Inconclusive("the scripted counter-store fault did not reach the send: " + desc)
+			return
+		}
+		c.Count("sends_failed_by_a_counter_store_fault", 1)
+		time.Sleep(N * 2 / 10)
+		_ = l.S.Send(fixgen.CreateMarketDataRequestReject("c08-after-fault"))
+		c.Count("app_sends", 1)
+		time.Sleep(time.Until(end))
 	case "send-at-deadline":
 		for time.Now().Before(end) {
 			sendAt(N)
@@ -359,7 +404,7 @@ func main() {
 	var scs []scen
 	for _, role := range []rig.Role{rig.Acceptor, rig.Initiator} {
 		for _, n := range ns {
-			for _, p := range []string{"idle", "send-just-before", "send-at-deadline", "send-just-after", "bursts-then-idle", "half-period-sends", "pair-just-under-a-tenth-apart", "resend-replay-mid-period", "handler-send-mid-period", "peer-answers-testrequests-late", "observers-removed-after-logon", "refused-sends-filter-registered-before-logon", "refused-sends-filter-registered-after-logon"} {
+			for _, p := range []string{"idle", "send-just-before", "send-inside-last-polling-step", "counter-store-fault-on-one-send", "send-at-deadline", "send-just-after", "bursts-then-idle", "half-period-sends", "pair-just-under-a-tenth-apart", "resend-replay-mid-period", "handler-send-mid-period", "peer-answers-testrequests-late", "observers-removed-after-logon", "refused-sends-filter-registered-before-logon", "refused-sends-filter-registered-after-logon"} {
 				scs = append(scs, scen{role, n, p, periods[n], 0})
 			}
 		}
@@ -411,4 +456,17 @@ func trace(frames []rig.Frame, i int) string {
 		fmt.Fprintf(&sb, "[#%d 35=%s 34=%s +%v] ", k, frames[k].Type, frames[k].Seq, d.Round(100*time.Microsecond))
 	}
 	return sb.String()
+}
+
+// flakyCounter is the bundled store whose next GetNextSeqNum for the outgoing side fails once when armed.
+type flakyCounter struct {
+	*memory.Storage
+	armed int32
+}
+
+func (f *flakyCounter) GetNextSeqNum(id fix.StorageID) (int, error) {
+	if id.Side == fix.Outgoing && atomic.CompareAndSwapInt32(&f.armed, 1, 0) {
+		return 0, errors.New("scripted: counter store unavailable")
+	}
+	return f.Storage.GetNextSeqNum(id)
 }
